@@ -16,16 +16,15 @@ TECHNIQUE = ("Coq proof about a crash model of FilePersister built on the C26 fi
              "index replay of initialise; the theorems reduce every non-torn crash point to the C26 refinement theorem. "
              "Model tied to the code by killing the real FilePersister (write/lseek wrapped with --wrap) after every "
              "possible number of system calls and comparing both files byte-wise and every answer after the reopen")
-LEVEL_TEXT = ("Theorem c27_atomic_partial: for control-first histories (never_lost) and every crash point that is not between "
-              "the index write and the data write of a message put (crash_torn = false) -- in particular every crash point "
-              "between API calls (c27_between_ops_partial) and inside a control put -- after the reopen all answers (completed "
-              "stores byte-identical, no foreign bytes, control record = last completed, further stores retrievable) are those "
-              "of the store contract after the completed operations; c27_torn_partial states what survives a torn put; "
-              "c27_control_refuted (F31) and c27_order_refuted (F32) exhibit the two violations.")
-LEVEL_NOTE = ("Partial: the property is violated by the pinned code for message-before-control histories (F31) and for a crash "
-              "between index write and data write (F32); both are listed findings.  Trusted and NOT proved: each write()/lseek() "
-              "is atomic and durable, completed calls are never reordered or lost by the kernel/page cache/disk (a process crash, "
-              "not a power failure); no short writes; the byte-list model of regular files.")
+LEVEL_TEXT = ("Theorem c27_atomic_partial: for control-first histories (never_lost) and EVERY crash point -- between API calls "
+              "(c27_between_ops_partial), inside a control put, and at every call boundary inside a message put including between "
+              "its data write and its index write (tree since a892b9a) -- after the reopen all answers (completed stores "
+              "byte-identical, no foreign bytes, control record = last completed, further stores retrievable) are those of the store "
+              "contract after the completed operations; c27_control_refuted (F31, open) and c27_order_orig_refuted (F32, the write "
+              "order before a892b9a) exhibit the violations.")
+LEVEL_NOTE = ("Partial: the property is still violated by the code for message-before-control histories (F31, listed finding). "
+              "Trusted and NOT proved: each write()/lseek() is atomic and durable, completed calls are never reordered or lost by the "
+              "kernel/page cache/disk (a process crash, not a power failure); no short writes; the byte-list model of regular files.")
 DESIGN_REF = "DESIGN.md section 4, C27"
 PROPS_FILE = "Props/Properties_C27.v"
 COQ_TARGETS = ["Props/Properties_C27.vo", "Extract/Extract_C27.vo"]
@@ -39,9 +38,9 @@ TRUSTED_BASE = ["Coq 8.16.1 kernel (coqc), vm_compute only",
 ASSUMPTIONS = ["a process crash keeps exactly the effect of the system calls that completed (each write atomic and durable, no reordering)",
                "write/lseek/read never fail and never transfer fewer bytes than asked",
                "message sequence numbers below 2^31; control values: the whole unsigned range"]
-RULE = ("quick: 110 random store histories of <= 6 operations (message put over sequence numbers 1..4 with payloads of 1..12 "
-        "distinct bytes, control put with values small or from {8191, 8192, 8193, 65535, 65536, 2^31-1, 2^31, 2^32-1}, get, "
-        "close+reopen; 3 of 4 control-first) plus 8 fixed control-first histories using every boundary control value as sender and as target, x EVERY crash point k = 0..total number of "
+RULE = ("quick: 100 random store histories of <= 6 operations (message put over sequence numbers 1..4 with payloads of 1..12 "
+        "distinct bytes, control put with values 0, small or from {8191, 8192, 8193, 65535, 65536, 2^31-1, 2^31, 2^32-1}, get, "
+        "close+reopen; 3 of 4 control-first) plus fixed control-first histories using every boundary control value as sender and as target and (0,0)/zero-component/repeated control stores, x EVERY crash point k = 0..total number of "
         "write/lseek calls; thorough: ALL histories of <= 3 operations over {put 1,2,3 x 2 payload sizes, control put, reopen} and every "
         "6th history of length 4 (all of them with VERIF_C27_FULL=1; that run exceeds the 15 min budget on a loaded machine) x "
         "every crash point.  After the crash: both files compared byte-wise with the model's disk; reopen; control get, last, get "
@@ -137,7 +136,14 @@ CTL_BOUNDARY = (8191, 8192, 8193, 65535, 65536, 2**31 - 1, 2**31, 2**32 - 1)
 
 
 def ctl_val(rng):
-    return rng.choice(CTL_BOUNDARY) if rng.randrange(5) < 2 else rng.randrange(1, 60)
+    """0 (the value of a default-constructed record; (0,0) is a legal first control store), a boundary
+    value of the packing into the index record, or a small number"""
+    r = rng.randrange(10)
+    if r < 2:
+        return 0
+    if r < 5:
+        return rng.choice(CTL_BOUNDARY)
+    return rng.randrange(1, 40)
 
 
 def obs(maxseq):
@@ -210,7 +216,11 @@ def gen_cases(rng, tier):
     for j, v in enumerate(CTL_BOUNDARY):
         w = CTL_BOUNDARY[(j + 3) % len(CTL_BOUNDARY)]
         all_points(rng, [("C", v, w), ("P", 1, fresh(rng, 4, j)), ("C", w, v)], 2, cs)
-    for n in range(110):
+    # the first control store is (0,0) / has a zero component / repeats the stored value: every crash point
+    for (a, b) in ((0, 0), (0, 9), (9, 0)):
+        all_points(rng, [("C", a, b), ("P", 1, fresh(rng, 3, a + b)), ("C", a, b), ("C", 5, 6), ("P", 2, fresh(rng, 2, 7))], 2, cs)
+    all_points(rng, [("C", 0, 0), ("O",), ("P", 1, fresh(rng, 3, 1)), ("C", 2, 2), ("O",), ("P", 2, fresh(rng, 2, 2))], 2, cs)
+    for n in range(100):
         ln = rng.randrange(1, 7)
         pre = []
         if n % 4 != 0:
@@ -277,14 +287,7 @@ def c_msg_before_control(case, r, m):
     return False
 
 
-def c_torn_put(case, r, m):
-    """the process died between the index write and the data write of a message put"""
-    pre, k, after = parse(case.line)
-    i, done, acc = locate(pre, k)
-    return i is not None and acc and done == 3
-
-
-CLASSIFIERS = {"msg-before-control": c_msg_before_control, "torn-put": c_torn_put}
+CLASSIFIERS = {"msg-before-control": c_msg_before_control}
 
 
 def EXHAUSTIVE(tier):
